@@ -11,6 +11,7 @@ let rec mcx_tok () = match next () with
   | "K" -> MConst (next_z ())
   | "+" -> let a = mcx_tok () in let b = mcx_tok () in MAdd (a, b)
   | "-" -> let a = mcx_tok () in let b = mcx_tok () in MSub (a, b)
+  | "T" -> let f = nn () in let k = nn () in let sub = mcx_tok () in MTarget (f, k, sub)
   | _ -> MOther
 let aref_tok () = match next () with
   | "B" -> RBlock (nn ()) | "P" -> RProxy (nn ()) | "D" -> RData | _ -> RNone
